@@ -167,8 +167,8 @@ def leNat : List Byte → Nat
   | [] => 0
   | b :: bs => b.toNat + 256 * leNat bs
 
-def bit (b : Byte) (i : Nat) : Bool := b.toNat.testBit i
-def bits (b : Byte) (lo n : Nat) : Nat := (b.toNat >>> lo) % (2 ^ n)
+def bit (b : Byte) (i : Nat) : Bool := b.getLsbD i
+def bits (b : Byte) (lo n : Nat) : Nat := (b.extractLsb' lo n).toNat
 
 /-- ModRM / SIB / displacement, SDM tables 2-1 (16-bit), 2-2 and 2-3 (32/64-bit). Returns the parse with the rest. -/
 def parseModRM (addr16 : Bool) (p : Parsed) : List Byte → Except String (Parsed × List Byte)
@@ -341,21 +341,6 @@ structure Ctx where
 
 def regNum (hi4 hi3 : Bool) (lo : Nat) : Nat := lo + (if hi3 then 8 else 0) + (if hi4 then 16 else 0)
 
-/-- checks one register operand in a register field; `n` is the decoded register number -/
-def checkRegId (what : String) (k : RegKind) (id n : Nat) (p : Parsed) : Except String Unit := do
-  match k with
-  | .gpbhi =>
-    -- AH CH DH BH are numbers 4..7 and exist only without REX (and never with VEX/EVEX)
-    if p.rex.isSome then throw s!"{what}: AH..BH with a REX prefix decodes as SPL..DIL" else
-    if n != id + 4 then throw s!"{what}: decoded register {n}, expected {id + 4} (high byte register {id})" else pure ()
-  | .gpb =>
-    if id ≥ 4 && id < 8 && p.rex.isNone && p.vexKind == 0 then throw s!"{what}: SPL..DIL without REX decodes as AH..BH" else
-    if n != id then throw s!"{what}: decoded register {n}, expected {id}" else pure ()
-  | .sreg =>
-    -- the caller numbers segment registers es=1 .. gs=6; the ISA numbers them es=0 .. gs=5
-    if n + 1 != id then throw s!"{what}: decoded segment register {n}, expected {id - 1}" else pure ()
-  | _ => if n != id then throw s!"{what}: decoded register {n}, expected {id}" else pure ()
-
 def addrSizeOfKind (mode64 : Bool) : RegKind → Nat
   | .gpw => 16 | .gpd => 32 | .gpq => 64 | _ => if mode64 then 64 else 32
 
@@ -473,180 +458,232 @@ def leBytes (v : Nat) : Nat → List Byte
 def immSignOf (f : FormOp) : Nat := f.alts.foldl (fun acc a => match a with | .imm _ s _ => s | _ => acc) 0
 def immBitsOf (f : FormOp) : Nat := f.alts.foldl (fun acc a => match a with | .imm b _ _ => b | .rel b => b | _ => acc) 0
 
-structure Fields where
-  reg : Option Nat := Option.none
-  usedVvvv : Bool := false
-  usedIs4 : Bool := false
-  memSeen : Option MemOp := Option.none
-  immPos : Nat := 0          -- bytes of p.imm consumed
-  is4Byte : Bool := false
+/-! ### The predicate, as a list of named conditions
 
-/-- The property's predicate for ONE database form. -/
-def checkForm (c : Ctx) (r : Rule) (ops : List Operand) (d : Decor) (bytes : List Byte) : Except String Unit := do
-  -- stage 1: the form is available in this mode and the operands instantiate it
-  if (if c.mode64 then r.modes &&& 2 else r.modes &&& 1) == 0 then throw "1 form not available in this mode" else
-  let some al := alignOps r.oszEff r.ops ops | throw "1 operands do not instantiate the form"
-  if d.k != 0 && !r.kmask then throw "1 {k} not allowed by the form" else
-  if d.z && !r.zmask then throw "1 {z} not allowed by the form" else
-  if d.er && !r.er then throw "1 {er} not allowed by the form" else
-  if d.sae && !r.sae && !r.er then throw "1 {sae} not allowed by the form" else
-  let memOp : Option MemOp := ops.foldl (fun acc o => match o with | .mem m => some m | _ => acc) Option.none
-  if (match memOp with | some m => m.bcst != 0 && !r.bcst | Option.none => false) then throw "1 broadcast not allowed by the form" else
-  -- stage 2: the bytes have the instruction format of the form's encoding space
-  let p ← match parse c.mode64 r bytes with
-    | .ok p => pure p
-    | .error e => throw ("2 " ++ e)
-  -- stage 3: opcode, map, mandatory prefix, W, L
-  let opc := if r.ri then p.opcode.toNat / 8 * 8 else p.opcode.toNat
-  if r.space != 4 && opc != r.opcode then throw s!"3 opcode byte {p.opcode.toNat}, the form has {r.opcode}" else
-  if r.space == 4 && p.imm.getLast? != some (BitVec.ofNat 8 r.opcode) then throw "3 3DNow! opcode suffix" else
-  if p.vexKind != 0 && p.map != r.map then throw s!"3 opcode map {p.map}, the form has {r.map}" else
-  let ppWant := if r.pp &&& 1 != 0 then 1 else if r.pp &&& 2 != 0 then 2 else if r.pp &&& 4 != 0 then 3 else 0
-  if p.vexKind != 0 && p.pp != ppWant then throw s!"3 pp {p.pp}, the form has {ppWant}" else
-  let wWant := if r.space == 0 || r.space == 4 then (if r.w == 1 || r.osz == 64 then 1 else if r.w == 2 then 2 else 0) else r.w
-  if wWant != 2 && p.W != (wWant == 1) then throw s!"3 W bit {p.W}, the form needs {wWant}" else
-  if p.vexKind != 0 && r.l != 3 && !(p.vexKind == 4 && p.b && memOp.isNone) && p.L != r.l then throw s!"3 vector length L={p.L}, the form has {r.l}" else
-  if (p.vexKind == 2 || p.vexKind == 3 || p.vexKind == 5) && p.L > 1 then throw "3 L" else
-  -- stage 4: legacy prefixes: exactly the ones the form and the call ask for
-  let want66 := (r.space == 0 || r.space == 4) && (r.pp &&& 1 != 0 || r.osz == 16)
-  let wantF3 := ((r.space == 0 || r.space == 4) && r.pp &&& 2 != 0) || d.rep || d.xrelease
-  let wantF2 := ((r.space == 0 || r.space == 4) && r.pp &&& 4 != 0) || d.repne || d.xacquire
-  let want9B := r.pp &&& 8 != 0
-  let implMem : Option MemOp := al.foldl (fun acc fo => match fo with
+`conds` lists every condition of the property for ONE database form, in order; the form explains the bytes iff all hold
+(`formOk`), and the first failing one is the diagnostic (`checkForm`). Having ONE definition for the verdict and for the
+message keeps the theorems of Props/C01Front.lean about exactly what the monitor evaluates. -/
+
+structure Chk where
+  ok : Bool
+  msg : Unit → String
+
+def allOk (l : List Chk) : Bool := l.all (·.ok)
+def firstFail : List Chk → Option String
+  | [] => Option.none
+  | c :: cs => if c.ok then firstFail cs else some (c.msg ())
+
+def ofExcept (pre : String) (e : Except String Unit) : Chk :=
+  match e with
+  | .ok _ => ⟨true, fun _ => ""⟩
+  | .error m => ⟨false, fun _ => pre ++ m⟩
+
+def memOperandOf (ops : List Operand) : Option MemOp :=
+  ops.foldl (fun acc o => match o with | .mem m => some m | _ => acc) Option.none
+
+def implMemOf (al : List (FormOp × Option Operand)) : Option MemOp :=
+  al.foldl (fun acc fo => match fo with
     | (f, some (.mem m)) => if f.role == .implmem || f.role == .rm || f.role == .moff then some m else acc
     | _ => acc) Option.none
+
+def hasBcst (mo : Option MemOp) : Bool := match mo with | some m => m.bcst != 0 | Option.none => false
+
+/-- stage 1: decorations allowed by the form -/
+def decorConds (r : Rule) (d : Decor) (memOp : Option MemOp) : List Chk :=
+  [⟨!(d.k != 0 && !r.kmask), fun _ => "1 {k} not allowed by the form"⟩,
+   ⟨!(d.z && !r.zmask), fun _ => "1 {z} not allowed by the form"⟩,
+   ⟨!(d.er && !r.er), fun _ => "1 {er} not allowed by the form"⟩,
+   ⟨!(d.sae && !r.sae && !r.er), fun _ => "1 {sae} not allowed by the form"⟩,
+   ⟨!(hasBcst memOp && !r.bcst), fun _ => "1 broadcast not allowed by the form"⟩]
+
+def isLegacySpace (r : Rule) : Bool := r.space == 0 || r.space == 4
+def ppWant (r : Rule) : Nat := if r.pp &&& 1 != 0 then 1 else if r.pp &&& 2 != 0 then 2 else if r.pp &&& 4 != 0 then 3 else 0
+def wWant (r : Rule) : Nat := if isLegacySpace r then (if r.w == 1 || r.osz == 64 then 1 else if r.w == 2 then 2 else 0) else r.w
+
+/-- stage 3: opcode, map, mandatory prefix, W, L -/
+def headConds (r : Rule) (p : Parsed) (memOp : Option MemOp) : List Chk :=
+  let opc := if r.ri then (p.opcode &&& 0xF8#8).toNat else p.opcode.toNat
+  [⟨r.space == 4 || opc == r.opcode, fun _ => s!"3 opcode byte {p.opcode.toNat}, the form has {r.opcode}"⟩,
+   ⟨r.space != 4 || p.imm.getLast? == some (BitVec.ofNat 8 r.opcode), fun _ => "3 3DNow! opcode suffix"⟩,
+   ⟨p.vexKind == 0 || p.map == r.map, fun _ => s!"3 opcode map {p.map}, the form has {r.map}"⟩,
+   ⟨p.vexKind == 0 || p.pp == ppWant r, fun _ => s!"3 pp {p.pp}, the form has {ppWant r}"⟩,
+   ⟨wWant r == 2 || p.W == (wWant r == 1), fun _ => s!"3 W bit {p.W}, the form needs {wWant r}"⟩,
+   ⟨p.vexKind == 0 || r.l == 3 || (p.vexKind == 4 && p.b && memOp.isNone) || p.L == r.l, fun _ => s!"3 vector length L={p.L}, the form has {r.l}"⟩,
+   ⟨!((p.vexKind == 2 || p.vexKind == 3 || p.vexKind == 5) && p.L > 1), fun _ => "3 L"⟩]
+
+def isSegByte (b : Byte) : Bool := b == 0x26 || b == 0x2E || b == 0x36 || b == 0x3E || b == 0x64 || b == 0x65
+
+/-- stage 4: legacy prefixes: exactly the ones the form and the call ask for -/
+def prefixConds (c : Ctx) (r : Rule) (p : Parsed) (d : Decor) (implMem : Option MemOp) : List Chk :=
+  let want66 := isLegacySpace r && (r.pp &&& 1 != 0 || r.osz == 16)
+  let wantF3 := (isLegacySpace r && r.pp &&& 2 != 0) || d.rep || d.xrelease
+  let wantF2 := (isLegacySpace r && r.pp &&& 4 != 0) || d.repne || d.xacquire
+  let want9B := r.pp &&& 8 != 0
   let wantSeg := match implMem with | some m => segPrefix m.seg | Option.none => Option.none
   let aszWant := match implMem with
     | some m => wantedAddrSize c.mode64 m
     | Option.none => if c.mode64 then 64 else 32
   let has67 := p.prefixes.contains 0x67
   let cnt (b : Byte) := p.prefixes.count b
-  if cnt 0x66 != (if want66 then 1 else 0) then throw s!"4 operand-size prefix 66: {cnt 0x66} present, wanted {want66}" else
-  if cnt 0xF3 != (if wantF3 then 1 else 0) then throw s!"4 F3 prefix: {cnt 0xF3} present, wanted {wantF3}" else
-  if cnt 0xF2 != (if wantF2 then 1 else 0) then throw s!"4 F2 prefix: {cnt 0xF2} present, wanted {wantF2}" else
-  if cnt 0xF0 != (if d.lock then 1 else 0) then throw s!"4 lock prefix: {cnt 0xF0} present, wanted {d.lock}" else
-  if cnt 0x9B != (if want9B then 1 else 0) then throw "4 fwait prefix" else
-  let segs := p.prefixes.filter (fun b => b == 0x26 || b == 0x2E || b == 0x36 || b == 0x3E || b == 0x64 || b == 0x65)
-  if segs != (match wantSeg with | some s => [s] | Option.none => []) then throw s!"4 segment prefixes {repr (segs.map (·.toNat))}, wanted {repr (wantSeg.map (·.toNat))}" else
-  if cnt 0x67 > 1 then throw "4 67 twice" else
-  -- 67: needed when the operand's registers are narrower than the mode; allowed for a zero-extended absolute address
+  let segs := p.prefixes.filter isSegByte
   let absNoRegs := match implMem with
     | some m => m.baseKind == .none && m.indexKind == .none
     | Option.none => false
   let defA := if c.mode64 then 64 else 32
-  if !absNoRegs && !r.a67 && has67 != (aszWant != defA) then throw s!"4 address-size prefix 67 present={has67}, operand address size {aszWant}" else
-  if p.vexKind != 0 && (cnt 0x66 + cnt 0xF2 + cnt 0xF3 + cnt 0xF0 != 0 || p.rex.isSome) then throw "4 66/F2/F3/F0/REX before VEX/EVEX" else
-  -- stage 5: ModRM fixed parts
+  [⟨cnt 0x66 == (if want66 then 1 else 0), fun _ => s!"4 operand-size prefix 66: {cnt 0x66} present, wanted {want66}"⟩,
+   ⟨cnt 0xF3 == (if wantF3 then 1 else 0), fun _ => s!"4 F3 prefix: {cnt 0xF3} present, wanted {wantF3}"⟩,
+   ⟨cnt 0xF2 == (if wantF2 then 1 else 0), fun _ => s!"4 F2 prefix: {cnt 0xF2} present, wanted {wantF2}"⟩,
+   ⟨cnt 0xF0 == (if d.lock then 1 else 0), fun _ => s!"4 lock prefix: {cnt 0xF0} present, wanted {d.lock}"⟩,
+   ⟨cnt 0x9B == (if want9B then 1 else 0), fun _ => "4 fwait prefix"⟩,
+   ⟨segs == (match wantSeg with | some s => [s] | Option.none => []), fun _ => s!"4 segment prefixes {repr (segs.map (·.toNat))}, wanted {repr (wantSeg.map (·.toNat))}"⟩,
+   ⟨cnt 0x67 ≤ 1, fun _ => "4 67 twice"⟩,
+   ⟨absNoRegs || r.a67 || has67 == (aszWant != defA), fun _ => s!"4 address-size prefix 67 present={has67}, operand address size {aszWant}"⟩,
+   ⟨p.vexKind == 0 || (cnt 0x66 + cnt 0xF2 + cnt 0xF3 + cnt 0xF0 == 0 && p.rex.isNone), fun _ => "4 66/F2/F3/F0/REX before VEX/EVEX"⟩]
+
+/-- stage 5: fixed parts of ModRM -/
+def modrmConds (r : Rule) (p : Parsed) : List Chk :=
   match p.modrm with
   | some mb =>
-    let mod := bits mb 6 2
-    if r.modKind == 2 && mod != 3 then throw "5 ModRM.mod must be 11" else
-    if r.modKind == 3 && mod == 3 then throw "5 ModRM.mod must not be 11" else
-    if r.modr < 8 && bits mb 3 3 != r.modr then throw s!"5 ModRM.reg {bits mb 3 3}, the form has /{r.modr}" else
-    if r.modrm < 8 && bits mb 0 3 != r.modrm then throw s!"5 ModRM.rm {bits mb 0 3}, the form has {r.modrm}" else
-    if r.modr < 8 && (p.R || p.R') && mod == 3 && false then throw "5" else pure ()
-  | Option.none => pure ()
-  -- stage 6: operands in their fields
-  let mut usedVvvv := false
-  let mut usedReg := false
-  let mut usedRm := false
-  let mut immPos := 0
-  let mut is4Seen := false
-  for (f, oo) in al do
-    match oo with
-    | Option.none => pure ()
-    | some o =>
-      match f.role, o with
-      | .none, _ => pure ()
-      | .implmem, _ => pure ()
-      | .reg, .reg k id =>
-        let some mb := p.modrm | throw "6 no ModRM for a reg operand"
-        usedReg := true
-        match checkRegId "6 ModRM.reg" k id (regNum p.R' p.R (bits mb 3 3)) p with | .ok _ => pure () | .error e => throw e
-      | .rm, .reg k id =>
-        let some mb := p.modrm | throw "6 no ModRM for a r/m operand"
-        usedRm := true
-        if bits mb 6 2 != 3 then throw "6 register operand but ModRM.mod != 11" else
-        -- EVEX: X extends ModRM.rm of a register operand to 5 bits
-        let n := regNum (p.vexKind == 4 && p.X) p.B (bits mb 0 3)
-        if p.vexKind != 4 && p.vexKind != 0 && p.X && false then throw "6" else
-        match checkRegId "6 ModRM.rm" k id n p with | .ok _ => pure () | .error e => throw e
-      | .rm, .mem m =>
-        usedRm := true
-        match checkMem c r p m with | .ok _ => pure () | .error e => throw ("6 mem: " ++ e)
-      | .vvvv, .reg k id =>
-        usedVvvv := true
-        if p.vexKind == 0 then throw "6 vvvv operand without VEX/EVEX" else
-        match checkRegId "6 vvvv" k id (regNum p.V' false p.vvvv) p with | .ok _ => pure () | .error e => throw e
-      | .opc, .reg k id =>
-        match checkRegId "6 opcode+r" k id (regNum false p.B (p.opcode.toNat % 8)) p with | .ok _ => pure () | .error e => throw e
-      | .is4, .reg _ id =>
-        -- the register lives in imm8[7:4]; the byte is shared with an optional imm4 operand
-        let some b := p.imm[immPos]? | throw "6 is4 byte missing"
-        is4Seen := true
-        let n := if c.mode64 then b.toNat / 16 else b.toNat / 16 % 8
-        if n != id then throw s!"6 is4 register {n}, expected {id}" else pure ()
-      | .imm, .imm v =>
-        let nb := immBitsOf f
-        if nb == 4 then
-          -- imm4 shares the is4 byte (low nibble)
-          let some b := p.imm[immPos]? | throw "6 imm4 byte missing"
-          if b.toNat % 16 != v.toNat % 16 then throw s!"6 imm4 {b.toNat % 16}, expected {v.toNat % 16}" else pure ()
-        else
-          let n := immBytesOf nb
-          -- far pointers store their two immediates in reverse operand order
-          let pos := if r.immRev then (if immPos == 0 then r.immBytes - n else 0) else immPos
-          let got := (p.imm.drop pos).take n
-          let osz := r.oszEff
-          if immSignOf f == 1 && osz != 0 && 8 * n < osz then
-            -- sign-extended to the operand size: equal as osz-bit patterns
-            let ext : Int := sextNat (leNat got) (8 * n) % ((2 ^ osz : Nat) : Int)
-            if ext != ((v.toNat % 2 ^ osz : Nat) : Int) then throw s!"6 sign-extended immediate {ext}, expected {v.toNat % 2 ^ osz}" else
-            immPos := immPos + n
-          else
-          if got != leBytes v.toNat n then throw s!"6 immediate bytes {repr (got.map (·.toNat))}, expected {repr ((leBytes v.toNat n).map (·.toNat))}" else
-          immPos := immPos + n
-      | .rel, o =>
-        let n := r.relBytes
-        let got := leNat ((p.imm.drop immPos).take n)
-        let dsp : Int := sextNat got (8 * n)
-        let endOff : Int := ((c.off + p.length : Nat) : Int)
-        match o with
-        | .label pos =>
-          if endOff + dsp != (pos : Int) then throw s!"6 rel target offset {endOff + dsp}, label is at {pos}" else pure ()
-        | .imm v =>
-          match c.base with
-          | Option.none => throw "6 rel to an absolute address without base address (relocation, not judged here)"
-          | some b =>
-            let w := if c.mode64 then 64 else 32
-            let tgt : Int := ((b : Int) + endOff + dsp) % (2 ^ w : Nat)
-            if tgt != ((v.toNat % 2 ^ w : Nat) : Int) then throw s!"6 rel target {tgt}, expected {v.toNat}" else pure ()
-        | _ => throw "6 rel operand kind"
-        immPos := immPos + n
-      | .moff, .mem m =>
-        let n := p.imm.length - r.immBytes
-        let got := leNat (p.imm.take n)
-        if m.baseKind != .none || m.indexKind != .none then throw "6 moffs operand with registers" else
-        if got != m.disp.toNat then throw s!"6 moffs address {got}, expected {m.disp.toNat}" else pure ()
-      | _, _ => throw "6 operand kind does not fit its encoding role"
-  if is4Seen then immPos := immPos + 1
-  -- stage 7: fields no operand uses must be neutral
-  if p.vexKind != 0 && !usedVvvv && p.vvvv != 0 then throw s!"7 vvvv = {p.vvvv} but no operand is encoded there" else
+    [⟨!(r.modKind == 2 && bits mb 6 2 != 3), fun _ => "5 ModRM.mod must be 11"⟩,
+     ⟨!(r.modKind == 3 && bits mb 6 2 == 3), fun _ => "5 ModRM.mod must not be 11"⟩,
+     ⟨!(r.modr < 8 && bits mb 3 3 != r.modr), fun _ => s!"5 ModRM.reg {bits mb 3 3}, the form has /{r.modr}"⟩,
+     ⟨!(r.modrm < 8 && bits mb 0 3 != r.modrm), fun _ => s!"5 ModRM.rm {bits mb 0 3}, the form has {r.modrm}"⟩]
+  | Option.none => []
+
+/-- a register operand in a register field; `n` is the decoded register number -/
+def regConds (what : String) (k : RegKind) (id n : Nat) (p : Parsed) : List Chk :=
+  match k with
+  | .gpbhi =>
+    [⟨p.rex.isNone, fun _ => s!"{what}: AH..BH with a REX prefix decodes as SPL..DIL"⟩,
+     ⟨n == id + 4, fun _ => s!"{what}: decoded register {n}, expected {id + 4} (high byte register {id})"⟩]
+  | .gpb =>
+    [⟨!(id ≥ 4 && id < 8 && p.rex.isNone && p.vexKind == 0), fun _ => s!"{what}: SPL..DIL without REX decodes as AH..BH"⟩,
+     ⟨n == id, fun _ => s!"{what}: decoded register {n}, expected {id}"⟩]
+  | .sreg => [⟨n + 1 == id, fun _ => s!"{what}: decoded segment register {n}, expected {id - 1}"⟩]
+  | _ => [⟨n == id, fun _ => s!"{what}: decoded register {n}, expected {id}"⟩]
+
+/-- stage 6: one operand in its field; returns the conditions and the new position in the immediate bytes -/
+def opConds (c : Ctx) (r : Rule) (p : Parsed) (immPos : Nat) (f : FormOp) (o : Operand) : List Chk × Nat :=
+  match f.role, o with
+  | .none, _ => ([], immPos)
+  | .implmem, _ => ([], immPos)
+  | .reg, .reg k id =>
+    match p.modrm with
+    | some mb => (regConds "6 ModRM.reg" k id (regNum p.R' p.R (bits mb 3 3)) p, immPos)
+    | Option.none => ([⟨false, fun _ => "6 no ModRM for a reg operand"⟩], immPos)
+  | .rm, .reg k id =>
+    match p.modrm with
+    | some mb =>
+      (⟨bits mb 6 2 == 3, fun _ => "6 register operand but ModRM.mod != 11"⟩ ::
+        regConds "6 ModRM.rm" k id (regNum (p.vexKind == 4 && p.X) p.B (bits mb 0 3)) p, immPos)
+    | Option.none => ([⟨false, fun _ => "6 no ModRM for a r/m operand"⟩], immPos)
+  | .rm, .mem m => ([ofExcept "6 mem: " (checkMem c r p m)], immPos)
+  | .vvvv, .reg k id =>
+    (⟨p.vexKind != 0, fun _ => "6 vvvv operand without VEX/EVEX"⟩ :: regConds "6 vvvv" k id (regNum p.V' false p.vvvv) p, immPos)
+  | .opc, .reg k id => (regConds "6 opcode+r" k id (regNum false p.B (bits p.opcode 0 3)) p, immPos)
+  | .is4, .reg _ id =>
+    match p.imm[immPos]? with
+    | some b =>
+      let n := if c.mode64 then bits b 4 4 else bits b 4 3
+      ([⟨n == id, fun _ => s!"6 is4 register {n}, expected {id}"⟩], immPos)
+    | Option.none => ([⟨false, fun _ => "6 is4 byte missing"⟩], immPos)
+  | .imm, .imm v =>
+    let nb := immBitsOf f
+    if nb == 4 then
+      match p.imm[immPos]? with
+      | some b => ([⟨bits b 0 4 == v.toNat % 16, fun _ => s!"6 imm4 {bits b 0 4}, expected {v.toNat % 16}"⟩], immPos)
+      | Option.none => ([⟨false, fun _ => "6 imm4 byte missing"⟩], immPos)
+    else
+      let n := immBytesOf nb
+      let pos := if r.immRev then (if immPos == 0 then r.immBytes - n else 0) else immPos
+      let got := (p.imm.drop pos).take n
+      let osz := r.oszEff
+      if immSignOf f == 1 && osz != 0 && 8 * n < osz then
+        let ext : Int := sextNat (leNat got) (8 * n) % ((2 ^ osz : Nat) : Int)
+        ([⟨ext == ((v.toNat % 2 ^ osz : Nat) : Int), fun _ => s!"6 sign-extended immediate {ext}, expected {v.toNat % 2 ^ osz}"⟩], immPos + n)
+      else
+        ([⟨got == leBytes v.toNat n, fun _ => s!"6 immediate bytes {repr (got.map (·.toNat))}, expected {repr ((leBytes v.toNat n).map (·.toNat))}"⟩], immPos + n)
+  | .rel, o =>
+    let n := r.relBytes
+    let got := leNat ((p.imm.drop immPos).take n)
+    let dsp : Int := sextNat got (8 * n)
+    let endOff : Int := ((c.off + p.length : Nat) : Int)
+    match o with
+    | .label pos => ([⟨endOff + dsp == (pos : Int), fun _ => s!"6 rel target offset {endOff + dsp}, label is at {pos}"⟩], immPos + n)
+    | .imm v =>
+      match c.base with
+      | Option.none => ([⟨false, fun _ => "6 rel to an absolute address without base address (relocation, not judged here)"⟩], immPos + n)
+      | some b =>
+        let w := if c.mode64 then 64 else 32
+        let tgt : Int := ((b : Int) + endOff + dsp) % (2 ^ w : Nat)
+        ([⟨tgt == ((v.toNat % 2 ^ w : Nat) : Int), fun _ => s!"6 rel target {tgt}, expected {v.toNat}"⟩], immPos + n)
+    | _ => ([⟨false, fun _ => "6 rel operand kind"⟩], immPos + n)
+  | .moff, .mem m =>
+    let n := p.imm.length - r.immBytes
+    let got := leNat (p.imm.take n)
+    ([⟨m.baseKind == .none && m.indexKind == .none, fun _ => "6 moffs operand with registers"⟩,
+      ⟨got == m.disp.toNat, fun _ => s!"6 moffs address {got}, expected {m.disp.toNat}"⟩], immPos)
+  | _, _ => ([⟨false, fun _ => "6 operand kind does not fit its encoding role"⟩], immPos)
+
+def operandConds (c : Ctx) (r : Rule) (p : Parsed) : Nat → List (FormOp × Option Operand) → List Chk
+  | _, [] => []
+  | immPos, (_, Option.none) :: rest => operandConds c r p immPos rest
+  | immPos, (f, some o) :: rest =>
+    let (cs, immPos') := opConds c r p immPos f o
+    cs ++ operandConds c r p immPos' rest
+
+def usesVvvv (al : List (FormOp × Option Operand)) : Bool :=
+  al.any (fun fo => match fo with | (f, some (.reg _ _)) => f.role == .vvvv | _ => false)
+
+/-- stage 7: fields no operand uses must be neutral; EVEX decorations -/
+def tailConds (p : Parsed) (d : Decor) (memOp : Option MemOp) (usedVvvv : Bool) : List Chk :=
   let vsibM := match memOp with | some m => vsibOf m != .none | Option.none => false
-  if p.vexKind == 4 && !usedVvvv && !vsibM && p.V' then throw "7 V' set but unused" else
-  if p.vexKind == 4 then
-    if p.aaa != d.k then throw s!"7 aaa = {p.aaa}, call has k{d.k}" else
-    if p.z != d.z then throw s!"7 z = {p.z}, call has z={d.z}" else
-    let bWant := (match memOp with | some m => m.bcst != 0 | Option.none => false) || d.er || d.sae
-    if p.b != bWant then throw s!"7 b = {p.b}, wanted {bWant}" else
-    if d.er && p.L != d.rc then throw s!"7 rounding control {p.L}, wanted {d.rc}" else
-    if p.map ≥ 8 then throw "7 EVEX map" else pure ()
-  else
-    if d.k != 0 || d.z || d.er || d.sae then throw "7 AVX-512 decoration without EVEX" else
-    if (match memOp with | some m => m.bcst != 0 | Option.none => false) then throw "7 broadcast without EVEX" else pure ()
-  -- in 32-bit mode registers 8+ do not exist
-  if !c.mode64 && (p.R' || p.V' && !vsibM) && false then throw "7" else
-  pure ()
+  [⟨!(p.vexKind != 0 && !usedVvvv && p.vvvv != 0), fun _ => s!"7 vvvv = {p.vvvv} but no operand is encoded there"⟩,
+   ⟨!(p.vexKind == 4 && !usedVvvv && !vsibM && p.V'), fun _ => "7 V' set but unused"⟩] ++
+  (if p.vexKind == 4 then
+    [⟨p.aaa == d.k, fun _ => s!"7 aaa = {p.aaa}, call has k{d.k}"⟩,
+     ⟨p.z == d.z, fun _ => s!"7 z = {p.z}, call has z={d.z}"⟩,
+     ⟨p.b == (hasBcst memOp || d.er || d.sae), fun _ => s!"7 b = {p.b}"⟩,
+     ⟨!(d.er && p.L != d.rc), fun _ => s!"7 rounding control {p.L}, wanted {d.rc}"⟩,
+     ⟨p.map < 8, fun _ => "7 EVEX map"⟩]
+   else
+    [⟨!(d.k != 0 || d.z || d.er || d.sae), fun _ => "7 AVX-512 decoration without EVEX"⟩,
+     ⟨!hasBcst memOp, fun _ => "7 broadcast without EVEX"⟩])
+
+/-- all conditions of the property for ONE database form -/
+def conds (c : Ctx) (r : Rule) (ops : List Operand) (d : Decor) (bytes : List Byte) : List Chk :=
+  ⟨(if c.mode64 then r.modes &&& 2 else r.modes &&& 1) != 0, fun _ => "1 form not available in this mode"⟩ ::
+  match alignOps r.oszEff r.ops ops with
+  | Option.none => [⟨false, fun _ => "1 operands do not instantiate the form"⟩]
+  | some al =>
+    let memOp := memOperandOf ops
+    decorConds r d memOp ++
+    match parse c.mode64 r bytes with
+    | .error e => [⟨false, fun _ => "2 " ++ e⟩]
+    | .ok p =>
+      headConds r p memOp ++ prefixConds c r p d (implMemOf al) ++ modrmConds r p ++ operandConds c r p 0 al ++
+      tailConds p d memOp (usesVvvv al)
+
+/-- The property's predicate for ONE database form (what the theorems are about). -/
+def formOk (c : Ctx) (r : Rule) (ops : List Operand) (d : Decor) (bytes : List Byte) : Bool := allOk (conds c r ops d bytes)
+
+/-- the same predicate with the first failing condition as diagnostic -/
+def checkForm (c : Ctx) (r : Rule) (ops : List Operand) (d : Decor) (bytes : List Byte) : Except String Unit :=
+  match firstFail (conds c r ops d bytes) with
+  | Option.none => .ok ()
+  | some m => .error m
+
+theorem checkForm_ok_iff (c : Ctx) (r : Rule) (ops : List Operand) (d : Decor) (bytes : List Byte) :
+    checkForm c r ops d bytes = .ok () ↔ formOk c r ops d bytes = true := by
+  unfold checkForm formOk
+  generalize conds c r ops d bytes = l
+  induction l with
+  | nil => simp [firstFail, allOk]
+  | cons a l ih =>
+    cases h : a.ok
+    · simp [firstFail, allOk, h]
+    · simp only [firstFail, h, ↓reduceIte, allOk, List.all_cons, Bool.true_and]
+      simpa [allOk] using ih
 
 /-- The monitor of C01: some form of the instruction's database entry explains the bytes.
 Returns the index of the form, or the reason of the form that got furthest. -/
